@@ -12,6 +12,7 @@ use des::time::{interval, sleep};
 use rand::distr::Uniform;
 use serde_json::{json, Value};
 use std::cell::RefCell;
+use std::collections::{HashMap, HashSet};
 use vcommon::{Args, Hasher64, Report, Rng};
 
 const MS: u64 = 1_000_000;
@@ -32,6 +33,9 @@ pub struct Model {
     pub end_emit: Vec<u8>,
     /// per module: number of tasks that sleep to common deadlines (three rounds) and draw a random value when they wake
     pub same_deadline_tasks: Vec<usize>,
+    /// message bodies are hashed collections (std HashMap / HashSet with per-instance random iteration order) whose
+    /// size enters the message length and so the transmission time
+    pub hashed_bodies: bool,
 }
 
 pub fn gen_model(model_seed: u64) -> Model {
@@ -47,6 +51,7 @@ pub fn gen_model(model_seed: u64) -> Model {
         ttl: 2 + rng.below(8) as u16,
         end_emit: (0..n).map(|_| if rng.chance(1, 3) { 1 + rng.below(2) as u8 } else { 0 }).collect(),
         same_deadline_tasks: (0..n).map(|_| if rng.chance(1, 3) { 2 + rng.usize_below(7) } else { 0 }).collect(),
+        hashed_bodies: rng.chance(1, 2),
     }
 }
 
@@ -137,12 +142,41 @@ impl Module for Node {
         let h = msg.header();
         let r: u64 = des::runtime::random();
         let content = msg.try_content::<u64>().copied().unwrap_or(0);
-        tr(format!("{} {me} msg kind {} id {} content {content} from {:?} drew {r}", now(), h.kind, h.id, h.src));
+        let shape = if let Some(m) = msg.try_content::<HashMap<String, u32>>() {
+            format!("map of {} sum {}", m.len(), m.values().map(|v| u64::from(*v)).sum::<u64>())
+        } else if let Some(m) = msg.try_content::<HashSet<String>>() {
+            format!("set of {} chars {}", m.len(), m.iter().map(String::len).sum::<usize>())
+        } else {
+            String::from("plain")
+        };
+        tr(format!(
+            "{} {me} msg kind {} id {} content {content} {shape} length {} from {:?} drew {r}",
+            now(),
+            h.kind,
+            h.id,
+            msg.length(),
+            h.src
+        ));
         let ttl = if h.kind == K_TIMER { self.model.ttl } else { h.id };
         if ttl > 0 {
             // gate and extra delay chosen by the random value
             let gate = if r % 2 == 0 { "out0" } else { "out1" };
-            let out = Message::default().kind(K_DATA).id(ttl - 1).src([self.idx as u8; 6]).with_content(r);
+            let out = Message::default().kind(K_DATA).id(ttl - 1).src([self.idx as u8; 6]);
+            let out = match (self.model.hashed_bodies, r % 5) {
+                (true, 1 | 2) => {
+                    // a routing-table like body: 17..80 entries with keys of differing length
+                    let entries = 17 + (r >> 8) % 64;
+                    let m: HashMap<String, u32> =
+                        (0..entries).map(|k| (format!("net-{}", "x".repeat(((r >> 16).wrapping_add(k * 7) % 23) as usize) + &k.to_string()), k as u32)).collect();
+                    out.with_content(m)
+                }
+                (true, 3) => {
+                    let entries = 17 + (r >> 8) % 40;
+                    let m: HashSet<String> = (0..entries).map(|k| format!("{k}-{}", "y".repeat(((r >> 20).wrapping_add(k * 5) % 19) as usize))).collect();
+                    out.with_content(m)
+                }
+                _ => out.with_content(r),
+            };
             if r % 3 == 0 {
                 send_in(out, gate, Duration::from_nanos(r % (3 * MS)));
             } else {
@@ -301,6 +335,7 @@ pub fn cmd(args: &Args) -> Report {
             rep.count("select_choices_observed", a.trace.iter().filter(|l| l.contains(" select ")).count() as u64);
             rep.count("random_draws_observed", a.trace.iter().filter(|l| l.contains(" drew ") || l.contains("-sample ")).count() as u64);
             rep.count("restarts_observed", a.trace.iter().filter(|l| l.contains("requests restart")).count() as u64);
+            rep.count("hashed_collection_bodies_delivered", a.trace.iter().filter(|l| l.contains(" map of ") || l.contains(" set of ")).count() as u64);
             if model.jitter_ns > 0 {
                 rep.count("runs_with_channel_jitter", 1);
             }
